@@ -743,6 +743,9 @@ func TestVerifC32(t *testing.T) {
 	c.Floor("import_streams", 40)
 	c.Floor("import_refused", 20)
 	c.Floor("import_accepted", 3)
+	c.Floor("import_names_nested_setid_and_parent_elements", 12)
+	c.Floor("import_names_clean_local_but_remainder_points_outside", 6)
+	c.Floor("import_names_parent_elements_with_dot_or_empty_elements", 4)
 	c.Floor("restore_cases", 15)
 	c.Floor("restore_success_equals_saved", 2)
 	c.Floor("restore_failed_unchanged", 8)
@@ -760,7 +763,7 @@ func TestVerifC32(t *testing.T) {
 	}
 
 	nScen := 1                     // per shard; the thorough tier multiplies scenarios by shards
-	nImport := kit.Scale(102, 136) // per scenario (34 stream classes, round-robin)
+	nImport := kit.Scale(3, 4) * len(importClasses) // per scenario: whole rounds of the class round-robin (44 slots)
 	only := kit.OnlyCase()
 	if os.Getenv("VERIF_C32_ONLY_STRACE") != "" {
 		nScen = 0 // debugging aid: only the syscall monitor
